@@ -189,7 +189,9 @@ func RunC19(tier string) int {
 	// ---- part 1: Pack on trees with cycles/fifos/odd names × rule files ----
 	{
 		ops := c19TreeOps()
-		base := []TNode{{Path: "src/a", Kind: "file", Body: "a"}, {Path: "src/d/f", Kind: "file", Body: "f"}}
+		// the base already holds the far half of a 2-cycle between two out-of-tree directories
+		// (dir2 -> dir), so that two more nodes (src/xd and out/dir/other) close it
+		base := []TNode{{Path: "src/a", Kind: "file", Body: "a"}, {Path: "src/d/f", Kind: "file", Body: "f"}, {Path: "out/dir2/back", Kind: "link", Target: "../dir"}, {Path: "out/dir2/h", Kind: "file", Body: "h"}}
 		k := 2
 		if thorough {
 			k = 3
